@@ -256,3 +256,11 @@ package mint
 //@   requires minv(m)
 //@   requires totalsinv()
 //@   ensures @disabled [C16] err == nil ==> (result.Nuts.Nut04.Disabled <==> (m.limits.MaxBalance > 0 && db.issuedtotal - db.redeemedtotal >= m.limits.MaxBalance))
+
+// The background watcher blocks on a channel: other requests run meanwhile
+// (yield point), so the state it read at the start is stale when it writes.
+//@ func (*Mint).checkInvoicePaid
+//@   tags C03
+//@   safety C06
+//@   requires minv(m)
+//@   calls (storage.MintDB).UpdateMintQuoteState asserts @unpaid2paid [C03] db.mq[quoteId] ==> (db.mqrow[quoteId].State == nut04.Unpaid && state == nut04.Paid)
